@@ -5,43 +5,46 @@ From Coq Require Import List NArith Bool Arith Lia.
 From GS Require Import LTS Supervisor SupAccept SupProps SupInv SupTrig SupResult.
 Import ListNotations.
 
-Definition nft (s : state) : Prop := existsb is_nonfail_trigger (hist s) = true.
+Definition nft (c : config) (s : state) : Prop := existsb (is_nonfail_trigger c) (hist s) = true.
 
 Definition main_waits (s : state) : Prop :=
   match main s with MWaitSd _ | MReturned _ => True | _ => False end.
 
 (* no non-failure trigger so far: nothing but Main itself (after it fixed a non-nil result) can
    have started the shutdown or cancelled the context *)
-Record quiet (s : state) : Prop := {
+Record quiet (c : config) (s : state) : Prop := {
   qt_sigq : forall g, In g (sigq s) -> benign_sig g;
   qt_parent : parent_cancel s = false;
   qt_own : own_cancel s = false \/ main_waits s;
   qt_sd : sd s = SdNot \/ main_waits s;
   qt_main : main_res (main s) <> Some ResNil;
-  qt_strig : forall i, get 0 (strig (aux s)) i = 0;
+  qt_strig : forall i, ssender (spec c i) = true -> get 0 (strig (aux s)) i = 0;
+  qt_sls : forall i, get LsAbsent (sls s) i = LsIdle -> ssender (spec c i) = true;
   qt_callers : forall k o cs, In (k, o, cs) (callers s) -> benign_op o;
 }.
 
-Definition InvRep (s : state) : Prop := nft s \/ quiet s.
+Definition InvRep (c : config) (s : state) : Prop := nft c s \/ quiet c s.
 
-Lemma quiet_init c : quiet (init c).
+Lemma quiet_init c : quiet c (init c).
 Proof.
   constructor; cbn; auto.
   - intros g [].
   - discriminate.
-  - intros i. unfold get. destruct (nth_repeat' 0 0 (nrun c) i) as [-> | ->]; reflexivity.
+  - intros i _. unfold get. destruct (nth_repeat' 0 0 (nrun c) i) as [-> | ->]; reflexivity.
+  - intros i H. change (get LsAbsent (map (fun _ => LsAbsent) (specs c)) i = LsIdle) in H.
+    rewrite get_const_absent in H. discriminate H.
   - intros k o cs [].
 Qed.
 
-Lemma nft_step c s l s' : nft s -> step c s l = Some s' -> nft s'.
+Lemma nft_step c s l s' : nft c s -> step c s l = Some s' -> nft c s'.
 Proof.
   unfold nft. intros H Hs. rewrite (step_hist _ _ _ _ Hs).
   destruct (obs l); [cbn [existsb]; rewrite H; apply orb_true_r|exact H].
 Qed.
 
-Lemma quiet_step c s l s' : quiet s -> step c s l = Some s' -> nft s' \/ quiet s'.
+Lemma quiet_step c s l s' : quiet c s -> step c s l = Some s' -> nft c s' \/ quiet c s'.
 Proof.
-  intros [Cs Cp Co Cd Cm Ct Cc] H. unfold step in H. unfold benign_sig, benign_op, main_waits in *.
+  intros [Cs Cp Co Cd Cm Ct Cl Cc] H. unfold step in H. unfold benign_sig, benign_op, main_waits in *.
   assert (Cx : ctx_done s = false \/ match main s with MWaitSd _ | MReturned _ => True | _ => False end).
   { destruct Co as [Co|Co]; [left; unfold ctx_done; now rewrite Co, Cp|now right]. }
   destruct l; cbn [step0] in H; unfold start_shutdown, store_state in H;
@@ -61,8 +64,13 @@ Proof.
               destruct (Cc _ _ _ (find_caller_In _ _ _ _ E)) as [X|[X|X]]; discriminate X end).
   all: try (exfalso; match goal with E : find_caller ?k (callers _) = Some (OpShutdown, _) |- _ =>
               destruct (Cc _ _ _ (find_caller_In _ _ _ _ E)) as [X|[X|X]]; discriminate X end).
-  all: try (exfalso; match goal with E : get 0 (strig (aux _)) ?i = S _ |- _ => rewrite Ct in E; discriminate E end).
+  all: try (exfalso; match goal with E : get 0 (strig (aux _)) ?i = S _, F : get LsAbsent (sls _) ?i = LsIdle |- _ =>
+              rewrite (Ct i (Cl i F)) in E; discriminate E end).
   all: try match goal with s0 : sig |- _ => destruct s0 end.
+  (* a trigger offered by runnable i: a trigger event iff i is a ShutdownSender *)
+  all: try (match goal with |- nft _ (with_hist _ (ETrigS ?i)) \/ _ =>
+              destruct (ssender (spec c i)) eqn:Si;
+              [left; unfold nft; cbn [hist with_hist existsb is_nonfail_trigger]; rewrite Si; reflexivity|] end).
   (* the event is a non-failure trigger *)
   all: try (left; unfold nft; cbn; reflexivity).
   (* still quiet *)
@@ -78,20 +86,33 @@ Proof.
   all: try (match goal with E : sigq _ = _ :: _ |- _ =>
               intros gg Hgg; apply Cs; first [right; exact Hgg|rewrite E; right; exact Hgg] end).
   all: try (intros gg [<-|[]]; auto; fail).
+  (* the listeners *)
+  all: try (intros j Hj; apply Cl; exact Hj).
+  all: try exact (fresh_sls_idle c).
+  all: try (intros j Hj; apply Cl; eapply sls_upd_idle; exact Hj).
+  all: try (intros j Hj; exfalso; exact (sls_mark_idle _ _ Hj)).
+  all: try (intros j Sj;
+            match goal with |- nth ?jj (upd ?l ?i ?x) 0 = 0 =>
+              assert (N : i <> jj) by (intros ->; congruence);
+              change (get 0 (upd l i x) jj = 0); rewrite (get_upd_other 0 l i jj x N); apply Ct; exact Sj end).
+  all: try (intros j Sj;
+            match goal with |- get 0 (upd ?l ?i ?x) ?jj = 0 =>
+              assert (N : i <> jj) by (intros ->; congruence);
+              rewrite (get_upd_other 0 l i jj x N); apply Ct; exact Sj end).
 Qed.
 
-Lemma InvRep_init c : InvRep (init c).
+Lemma InvRep_init c : InvRep c (init c).
 Proof. right. apply quiet_init. Qed.
 
-Lemma InvRep_step c s l s' : InvRep s -> step c s l = Some s' -> InvRep s'.
+Lemma InvRep_step c s l s' : InvRep c s -> step c s l = Some s' -> InvRep c s'.
 Proof.
   intros [Ht|Hq] H; [left; eapply nft_step; eassumption|eapply quiet_step; eassumption].
 Qed.
 
-Lemma InvRep_reachable c s : reachable_sup c s -> InvRep s.
+Lemma InvRep_reachable c s : reachable_sup c s -> InvRep c s.
 Proof. apply sup_inv; [apply InvRep_init|apply InvRep_step]. Qed.
 
-Lemma nft_rev s : nft s -> existsb is_nonfail_trigger (rev (hist s)) = true.
+Lemma nft_rev c s : nft c s -> existsb (is_nonfail_trigger c) (rev (hist s)) = true.
 Proof.
   unfold nft. intros H. apply existsb_exists in H as (e & Hin & He).
   apply existsb_exists. exists e. split; [now apply in_rev in Hin|exact He].
@@ -99,10 +120,10 @@ Qed.
 
 (* at the moment Main fixes a nil result (and ever after) a non-failure trigger is in the history *)
 Lemma nil_decided c s :
-  reachable_sup c s -> main_res (main s) = Some ResNil -> nft s.
+  reachable_sup c s -> main_res (main s) = Some ResNil -> nft c s.
 Proof.
   intros Hre Hm. destruct (InvRep_reachable _ _ Hre) as [X|X]; [exact X|].
-  exfalso. exact (qt_main _ X Hm).
+  exfalso. exact (qt_main _ _ X Hm).
 Qed.
 
 (* C04 (reports): Run() returns nil only after a non-failure trigger *)
@@ -165,7 +186,7 @@ Qed.
    error ... *)
 Theorem sup_c04_reports_decided c ls s r :
   run (step c) (init c) ls = Some s -> main_res (main s) = Some r ->
-  existsb is_nonfail_trigger (obs_trace obs ls) = false ->
+  existsb (is_nonfail_trigger c) (obs_trace obs ls) = false ->
   reports_err c (obs_trace obs ls) r.
 Proof.
   intros H Hm Hn. assert (Hre : reachable_sup c s) by (now exists ls).
@@ -181,7 +202,7 @@ Qed.
 (* ... and Run() returns exactly it, whatever happens afterwards (later triggers included) *)
 Theorem sup_c04_reports_final c ls1 s1 r ls2 s2 r' :
   run (step c) (init c) ls1 = Some s1 -> main_res (main s1) = Some r ->
-  existsb is_nonfail_trigger (obs_trace obs ls1) = false ->
+  existsb (is_nonfail_trigger c) (obs_trace obs ls1) = false ->
   run (step c) s1 ls2 = Some s2 -> main s2 = MReturned r' ->
   r' = r /\ reports_err c (obs_trace obs ls1) r.
 Proof.
